@@ -1,6 +1,6 @@
 From Coq Require Import List NArith ZArith String.
 From NV Require Import Lib.Val Lib.Res Lib.Wire Prep.Model.
-From NV Require Prep.Detect.
+From NV Require Prep.Detect Prep.Resize.
 Import ListNotations.
 Open Scope string_scope.
 
@@ -23,6 +23,15 @@ Definition dispatch (cmd : string) (a : val) : val :=
     VS (board_conf (getN (arg 0 a)) (getS (arg 1 a)) (getN (arg 2 a)))
   else if String.eqb cmd "read_board" then VOpt VBoard (read_board (getS a))
   else if String.eqb cmd "path_ok" then VB (path_ok (getS a))
+  else if String.eqb cmd "size_of" then
+    (* [mantissa; digits after the point; suffix 0 none 1 B 2 KB 3 MB 4 GB 5 TB] *)
+    let sf := let n := getN (arg 2 a) in
+              if N.eqb n 0 then Prep.Resize.SNone else if N.eqb n 1 then Prep.Resize.SB else if N.eqb n 2 then Prep.Resize.SKB
+              else if N.eqb n 3 then Prep.Resize.SMB else if N.eqb n 4 then Prep.Resize.SGB else Prep.Resize.STB in
+    VN (Prep.Resize.size_of (getN (arg 0 a)) (getN (arg 1 a)) sf)
+  else if String.eqb cmd "resize_len" then
+    (* [current length; wanted] -> new length (the content model is in the theorems) *)
+    VN (N.max (getN (arg 0 a)) (getN (arg 1 a)))
   else if String.eqb cmd "detect" then
     (* [() | (boot); () | (root); [(number, kind) ...]] kind 0 fat 1 maybefat 2 notfat -> (boot, root) | 0 no boot | 1 no root *)
     let opt v := match getL v with [x] => Some (getN x) | _ => None end in
